@@ -47,3 +47,7 @@ clean:
 	rm -rf $(B)
 
 -include $(wildcard $(B)/*/*.d)
+
+# model self-tests (own main, no harness)
+$(B)/fz/selftest_url: ref/selftest_url.cpp $(B)/fz/ref_refurl.o $(B)/fz/ada.o | $(B)/fz
+	$(CXX) $(STD) $(FLAGS_fz) $(DEFS) $(INC) $(WARN) $^ -o $@
